@@ -179,6 +179,7 @@ func (db *DB) processFollowers(stop <-chan interface{}) {
 		}
 
 		newlyJoinedStreams[f.Stream] = true
+		verifJoined(db, f.Stream)
 	}
 
 	defer func() {
@@ -350,9 +351,11 @@ func (db *DB) processFollowers(stop <-chan interface{}) {
 					// ignore failed followers
 					continue
 				}
+				verifSubmitted(db, f.FollowerID, entry.offset)
 				f.submit(entry)
 				stats[f.FollowerID]++
 			}
+			verifDispatched(db, entry.stream, entry.data, offset)
 
 		case <-statsTicker.C:
 			printStats()
@@ -452,6 +455,10 @@ func (db *DB) enqueuePartitionRequests(parallelism int, requests chan *partition
 			}
 		default:
 			markQueued()
+			if verifFast() {
+				time.Sleep(2 * time.Millisecond)
+				continue
+			}
 			time.Sleep(1 * time.Second)
 		}
 	}
@@ -656,6 +663,8 @@ waitForTables:
 				timer.Reset(10 * time.Second)
 			}
 			break waitForTables
+		case <-verifStartCh(db):
+			break waitForTables
 		case subscriber := <-newSubscriber:
 			db.log.Debugf("Got subscriber: %v", subscriber)
 			table := subscriber.t
@@ -676,6 +685,7 @@ waitForTables:
 			})
 			// Got some tables, don't wait as long this time
 			timer.Reset(5 * time.Second)
+			verifSubscribed(db)
 		}
 	}
 
